@@ -161,6 +161,8 @@ def scenarios(pid, tier, seed):
         return [
             {"args": ["scen", "family=walk", "count=%d" % (48 if q else 480), "len=%d" % (150 if q else 400), "undo=20", "ops=snap,stacks,bbs", S], "shards": 16},
             {"args": ["scen", "family=tree", "depth=2", "budget=%d" % (100 if q else 3000), "ops=snap,stacks,bbs", S], "shards": 16},
+            # make/undo beyond the 100th quiet ply (the clock keeps counting after the draw threshold)
+            {"args": ["scen", "family=walk", "names=quiet-clock", "count=%d" % (16 if q else 160), "len=120", "undo=20", "ops=snap,stacks", S], "shards": 16},
         ]
     if pid == "C05":
         return [
